@@ -64,6 +64,7 @@ func main() {
 		fs.Parse(os.Args[3:])
 		modelrunPath = *mr
 		prop := os.Args[2]
+		composeProps()
 		spec, ok := props[prop]
 		if !ok {
 			fmt.Fprintln(os.Stderr, "unknown property", prop)
@@ -82,6 +83,10 @@ func main() {
 				if c.Fn == m.Name {
 					cs = append(cs, c)
 				}
+			}
+			corrCap = 0
+			if borrowed[prop+"/"+m.Name] && *tier == "quick" {
+				corrCap = 40000
 			}
 			cr, err := RunCorr(m, mr, *tier, cs)
 			if err != nil {
@@ -152,6 +157,37 @@ func main() {
 		os.Exit(2)
 	}
 }
+
+// composeProps: C01 and C02 state theorems about the models of the individual consumers, so their runs also
+// re-check the correspondence of those models (capped per model, see corrCap).
+func composeProps() {
+	add := func(target string, from ...string) {
+		t, ok := props[target]
+		if !ok {
+			return
+		}
+		have := map[string]bool{}
+		for _, m := range t.Models {
+			have[m.Name] = true
+		}
+		for _, f := range from {
+			if sp, ok := props[f]; ok {
+				for _, m := range sp.Models {
+					if !have[m.Name] {
+						have[m.Name] = true
+						t.Models = append(t.Models, m)
+						borrowed[target+"/"+m.Name] = true
+					}
+				}
+			}
+		}
+	}
+	add("C02", "C06", "C07", "C09", "C11", "C12")
+	add("C01", "C06", "C07", "C08", "C09", "C10", "C11", "C12")
+}
+
+// models borrowed from another property are run on a capped number of cases in the quick tier
+var borrowed = map[string]bool{}
 
 var gens = map[string]func(out string) error{}
 
